@@ -44,7 +44,7 @@ Fixpoint model_runs (sc : escen) (k : nat) (s : ms) : list (option (list event *
   | S k' =>
       match model_run sc s with
       | None => [None]
-      | Some (s', oc) => Some (visible (skipn (length (log s)) (log s')), oc) :: model_runs sc k' s'
+      | Some (s', oc) => Some (skipn (length (log s)) (log s'), oc) :: model_runs sc k' s'
       end
   end.
 
@@ -62,7 +62,7 @@ Definition impl_outcome_eqb (m : outcome) (i : act * option err) : bool :=
 
 Definition run_admitted (m : option (list event * outcome)) (i : erun) : bool :=
   match m, i with
-  | Some (tr, oc), (itr, ioc, OkRun) => list_eqb event_eqb tr itr && impl_outcome_eqb oc ioc
+  | Some (tr, oc), (itr, ioc, OkRun) => list_eqb event_eqb (visible tr) itr && impl_outcome_eqb oc ioc
   | _, _ => false
   end.
 
@@ -75,6 +75,16 @@ Fixpoint runs_admitted (m : list (option (list event * outcome))) (i : eobs) : b
 
 Definition admits_engine (sc : escen) (ob : eobs) : bool :=
   scen_ok sc && runs_admitted (model_obs sc) ob.
+
+(* the model's observations in the shape of implementation observations (the runs before the
+   first one that ran out of fuel); waits are pseudo-events and stay in the model's traces *)
+Definition pair_of_outcome (oc : outcome) : act * option err :=
+  match oc with Done a => (a, None) | Fail e => (A_EMPTY, Some e) end.
+Fixpoint eobs_of_model (m : list (option (list event * outcome))) : eobs :=
+  match m with
+  | Some (tr, oc) :: rest => (tr, pair_of_outcome oc, OkRun) :: eobs_of_model rest
+  | _ => []
+  end.
 
 (* case-file plumbing: keep the indices whose verdict is not (true, true) *)
 Definition failing {Sc Ob : Type} (admits spec : Sc -> Ob -> bool) (cs : list (nat * Sc * Ob))
